@@ -182,7 +182,7 @@ class _ShapeList(list):
                 shape.meta['label'] = f"'{shape.meta['label']}'"
 
             keylist = ('include', 'comment', 'symbol', 'coord', 'text',
-                       'range', 'corr', 'type')
+                       'range', 'corr', 'type', 'labeloff')
             meta_pairs = []
             for key, val in shape.meta.items():
                 if key not in keylist:
@@ -206,6 +206,9 @@ class _ShapeList(list):
             if 'comment' in shape.meta:
                 meta_str += ', ' + shape.meta['comment']
 
+            if 'labeloff' in shape.meta:
+                labeloff = list(shape.meta['labeloff'])
+                meta_str += f', labeloff={labeloff}'.replace("'", '')
             if 'range' in shape.meta:
                 shape.meta['range'] = [str(str(x).replace(' ', '')) for x in
                                        shape.meta['range']]
